@@ -112,7 +112,18 @@ def check_program(es5, Node, walkers, src, with_comments):
         raise
     W = walkers.Walker()
     ref = closure(Node, tree)
-    walked = list(W.walk(tree))
+    try:
+        walked = list(W.walk(tree))
+    except Exception as e:
+        # a tree the parser built cannot be walked at all
+        return [('walk', 'walk() raises %s: %s on a tree the parser built' % (type(e).__name__, e))]
+    try:
+        return _compare(Node, walkers, W, tree, ref, walked)
+    except Exception as e:
+        return [('walk', 'walking / filtering raises %s: %s on a tree the parser built' % (type(e).__name__, e))]
+
+
+def _compare(Node, walkers, W, tree, ref, walked):
     probs = []
     refids = dict((id(x), (a, x)) for a, x in ref)
     wid = [id(x) for x in walked]
